@@ -28,6 +28,7 @@ def c5(ctx):
     serial.smchart_writer_fields(ctx)
     writers.ssc_chart_items(ctx, judge_skip_only=True)
     writers.base_items(ctx)
+    serial.str_is_serialize(ctx)
 
 
 def c9(ctx):
